@@ -116,3 +116,39 @@ add('c15-unsafe-store', CY, "    def _safe_add_metric(self, name, vals):\n      
 add('c15-cache-good-only', CY, "        self.cycle_vect = get_cycle_vector(self.phase, return_good=False,", "        self.cycle_vect = get_cycle_vector(self.phase, return_good=True,",
     'breaking', ['C15'], 'C15.R5')
 add('c15-cache-stop', CS, "    stops = np.r_[stops, len(cycle_vect)]", "    stops = np.r_[stops, len(cycle_vect) - 1]", 'breaking', ['C15'], 'C15.R5')
+
+# ---------------------------------------------------------------- C02
+add('c02-sd-no-denominator', S, "    metric = np.sum((proto_imf - prev_imf)**2) / np.sum(proto_imf**2)", "    metric = np.sum((proto_imf - prev_imf)**2)",
+    'breaking', ['C02', 'C04'], 'C02.R1')
+add('c02-rilling-unnormalised', S, "    eval_metric = np.abs(avg_env)/amp", "    eval_metric = np.abs(avg_env)", 'breaking', ['C02', 'C04'], 'C02.R1')
+add('c02-mask-amp-unscaled', S, "    elif mask_amp_mode == 'ratio_sig':\n        sd = X.std()", "    elif mask_amp_mode == 'ratio_sig':\n        sd = 1",
+    'breaking', ['C02', 'C07'], 'C02.R1')
+add('c02-envelope-vs-constant', S, "        if upper is None or lower is None:\n            if niters == 1:",
+    "        if upper is not None and np.max(upper) < 1e-3:\n            upper = None\n        if upper is None or lower is None:\n            if niters == 1:",
+    'breaking', ['C02'], 'C02.R1')
+add('c02-trough-not-renegated', S, "        max_locs, max_ext = _find_extrema(-X, parabolic_extrema=parabolic_extrema)\n        max_ext = -max_ext",
+    "        max_locs, max_ext = _find_extrema(-X, parabolic_extrema=parabolic_extrema)", 'breaking', ['C02', 'C05'], 'R2')
+add('c02-one-sided-pad', S, "    ret_max_locs = np.pad(max_locs, pad_width, loc_pad_mode, **loc_pad_opts)\n\n    # Pad peak magnitudes\n    ret_max_ext = np.pad(max_ext, pad_width, mag_pad_mode, **mag_pad_opts)",
+    "    ret_max_locs = np.pad(max_locs, (pad_width, 0), loc_pad_mode, **loc_pad_opts)\n\n    # Pad peak magnitudes\n    ret_max_ext = np.pad(max_ext, (pad_width, 0), mag_pad_mode, **mag_pad_opts)",
+    'breaking', ['C02'], 'C02.R3')
+add('c02-rilling-abs-lost', S, "    amp = np.abs(upper_env-lower_env)/2", "    amp = (upper_env-lower_env)/2", 'breaking', ['C02', 'C04'], 'R')
+add('c02-greater-equal', S, "    ext_locs = signal.argrelextrema(X, np.greater, order=1)[0]", "    ext_locs = signal.argrelextrema(X, np.greater_equal, order=1)[0]",
+    'breaking', ['C02', 'C05'], 'R')
+add('c02-energy-unbalanced', S, "    return imf_energy-resid_energy", "    return imf_energy-2*resid_energy", 'breaking', ['C02', 'C04'], 'R')
+add('c02-scale-free-refactor-benign', S, "    metric = np.sum((proto_imf - prev_imf)**2) / np.sum(proto_imf**2)",
+    "    num = np.sum(np.square(proto_imf - prev_imf))\n    metric = num / np.sum(np.square(proto_imf))", 'benign', ['C02', 'C04'])
+
+# ---------------------------------------------------------------- C09
+add('c09-missing-sample-rate', SP, "    ifrequency = iphase / (2.0 * np.pi) * sample_rate", "    ifrequency = iphase / (2.0 * np.pi)", 'breaking', ['C09'], 'C09.R2')
+add('c09-times-2pi', SP, "    ifrequency = iphase / (2.0 * np.pi) * sample_rate", "    ifrequency = iphase * (2.0 * np.pi) * sample_rate", 'breaking', ['C09'], 'C09.R2')
+add('c09-wrap-before-diff', SP, "    ifreq = freq_from_phase(iphase, sample_rate)\n\n    # Return wrapped phase\n    iphase = utils.wrap_phase(iphase)",
+    "    iphase = utils.wrap_phase(iphase)\n    ifreq = freq_from_phase(iphase, sample_rate)", 'breaking', ['C09'], 'C09.R2')
+add('c09-wrap-range', UT, "        phases = (IP) % (ncycles * 2 * np.pi)", "        phases = (IP) % (ncycles * np.pi)", 'breaking', ['C09'], 'C09.R1')
+add('c09-no-wrap', SP, "    # Return wrapped phase\n    iphase = utils.wrap_phase(iphase)\n", "", 'breaking', ['C09'], 'C09.R1')
+add('c09-phase-from-freq-coeff', SP, "    iphase_diff = (ifrequency / sample_rate) * (2 * np.pi)", "    iphase_diff = (ifrequency / sample_rate) * np.pi", 'breaking', ['C09'], 'C09.R2')
+add('c09-amp-normalised', SP, "        analytic_signal = signal.hilbert(imf, axis=0)\n\n        # Estimate instantaneous amplitudes directly from analytic signal\n        iamp = np.abs(analytic_signal)",
+    "        analytic_signal = signal.hilbert(imf, axis=0)\n\n        # Estimate instantaneous amplitudes directly from analytic signal\n        iamp = np.abs(analytic_signal) / np.abs(analytic_signal).max()",
+    'breaking', ['C09'], 'C09.R3')
+add('c09-normalise-by-other-column', UT, "                X[:, iimf, jimf] = X[:, iimf, jimf] / env\n", "                X[:, iimf, jimf] = X[:, 0, jimf] / env\n", 'breaking', ['C09'], 'C09.R3')
+add('c09-method-fallthrough', SP, "    elif method == 'quad':\n        logger.info('Using Quadrature transform')\n\n        analytic_signal = quadrature_transform(imf)\n",
+    "    elif method == 'quad':\n        logger.info('Using Quadrature transform')\n", 'breaking', ['C09'], 'C09.R4')
